@@ -66,3 +66,24 @@ def only_clauses(unit, prop, kinds=("raises", "pre", "frame"), label="exception-
         ctx.oblige("post", "normal-return:this-property's-clauses-of-the-unit-are-its-exception-clauses(checked on the raising paths)", True)
 
     return dataclasses.replace(unit, prop=prop, post=post, raises=filtered(unit.raises), label=(unit.label + "+" + label).lstrip("+"))
+
+
+def carried(prop):
+    """Units of the second-round modules (contracts/r2_*.py) that `prop` carries: each module exposes units(prop) and CARRIES = {prop: [target
+    suffix (optionally followed by [label]), ...]}; a cNN module appends carried("Cnn") at its very end (after its own names are defined)."""
+    import glob
+    import os
+    out = []
+    here = os.path.dirname(os.path.abspath(__file__))
+    for path in sorted(glob.glob(os.path.join(here, "r2_*.py"))):
+        m = importlib.import_module("contracts." + os.path.basename(path)[:-3])
+        wanted = getattr(m, "CARRIES", {}).get(prop)
+        if not wanted:
+            continue
+        us = m.units(prop)
+        for w in wanted:
+            hit = [u for u in us if (u.target + (f"[{u.label}]" if u.label else "")).endswith(w) or u.target.endswith(w)]
+            if not hit:
+                raise RuntimeError(f"{m.__name__}: CARRIES[{prop}] names {w!r}, which matches no unit")
+            out.extend(h for h in hit if h not in out)
+    return out
